@@ -669,7 +669,7 @@ func (fr *Frame) makeSlice(x *ssa.MakeSlice, reach T, st *State) {
 	arr := ex.allocRef(st, reach, fr.vname(x)+"_arr")
 	comp := ex.elemsComp(elem)
 	es := ex.sorts.sortOf(elem)
-	ex.set(st, comp, store(ex.get(st, comp), arr, T{fmt.Sprintf("((as const %s) %s)", arraySort("Int", es), ex.sorts.zero(elem).s), arraySort("Int", es)}))
+	ex.set(st, comp, store(ex.get(st, comp), arr, ex.constArray("Int", es, ex.sorts.zero(elem))))
 	fr.setVal(x, app("Slice", "mk$Slice", arr, intLit(0), ln, cp))
 }
 
